@@ -5,6 +5,7 @@ mod rng;
 mod s1_filters;
 mod s3_reservoir;
 mod s4_digest;
+mod s5_topk;
 
 use framework::*;
 
@@ -56,6 +57,14 @@ fn plan(ctx: &mut CheckCtx, k: f64) {
         "C16" => {
             ctx.run::<s4_digest::S4>(n(12_000));
         }
+        "C09" => {
+            ctx.required_probes = vec!["prune_tick_adjacent", "prune_tick", "count_equals_window_at_tick"];
+            ctx.run::<s5_topk::S5a>(n(20_000));
+        }
+        "C10" => {
+            ctx.required_probes = vec!["inflated_newcomer_while_heap_has_room", "collision_free_prefix", "prefix_with_sketch_error"];
+            ctx.run::<s5_topk::S5b>(n(60_000));
+        }
         "C05" => {
             // one evaluation = one (k, n) cell = a batch of sampler runs; the grid is fixed per tier
             let cells = s3_reservoir::small_grid().len() + if ctx.tier == Tier::Thorough { s3_reservoir::large_grid().len() } else { 0 };
@@ -88,6 +97,8 @@ fn replay(path: &str) -> i32 {
     let scen = doc["scenario"].as_str().unwrap_or("");
     let viols = match scen {
         "S1-filter-node" => replay_case::<s1_filters::S1>(&doc, prop),
+        "S5a-lossycounter" => replay_case::<s5_topk::S5a>(&doc, prop),
+        "S5b-cmsheap" => replay_case::<s5_topk::S5b>(&doc, prop),
         "S4-digest" => replay_case::<s4_digest::S4>(&doc, prop),
         "S3a-reservoir-invariants" => replay_case::<s3_reservoir::S3a>(&doc, prop),
         "S3b-reservoir-uniformity" => replay_case::<s3_reservoir::S3b>(&doc, prop),
@@ -110,7 +121,7 @@ fn replay(path: &str) -> i32 {
 }
 
 /// Claimed properties (everything `plan` knows).
-const CLAIMED: &[&str] = &["C01", "C04", "C05", "C12", "C13", "C14", "C15", "C16", "C18"];
+const CLAIMED: &[&str] = &["C01", "C04", "C05", "C09", "C10", "C12", "C13", "C14", "C15", "C16", "C18"];
 
 /// Proves determinism on a sample: every claimed check is run in separate processes with the same
 /// seed at 1, 5 and 16 workers (and the 16-worker one twice); the event-log hashes (per-run
